@@ -2,6 +2,7 @@ package pipe
 
 import (
 	"fmt"
+	"io"
 	"sort"
 	"sync"
 	"time"
@@ -33,6 +34,10 @@ type Scenario struct {
 	ConsumerDelay time.Duration
 	// Deadline after which the run is declared hung (default 60 s).
 	Deadline time.Duration
+	// LineFacts: the expressions may read {src} / {line}.  The reference facts of a line are then those
+	// of the sequential reading (RefEval.EvalAt with the source name and the 1-based line number); all
+	// lines of the scenario must be pairwise distinct (identity by content = identity by position).
+	LineFacts bool
 	// ProcGate, when set, is called by every worker before the matcher runs on a line.
 	ProcGate func(worker int, line []byte)
 }
@@ -80,7 +85,7 @@ func WriteHeader(log *EventLog, s *Scenario, mode string) (*Dict, error) {
 	}
 	log.Write(M{"event": "reset", "t": s.ID, "mode": mode, "batch": s.Batch, "workers": s.Workers,
 		"readers": s.Readers, "buf": s.Buffer, "tf": tf, "nign": len(s.Ignore), "log": logKind,
-		"nfiles": len(s.Sources), "gunzip": b2i(s.Gunzip), "family": s.Family})
+		"nfiles": len(s.Sources), "gunzip": b2i(s.Gunzip), "family": s.Family, "linefacts": b2i(s.LineFacts)})
 	d := NewDict()
 	files := make([][]int, len(s.Sources))
 	for f := range s.Sources {
@@ -89,8 +94,14 @@ func WriteHeader(log *EventLog, s *Scenario, mode string) (*Dict, error) {
 			n := d.Len()
 			id := d.Add(l)
 			files[f][i] = id
+			if s.LineFacts && d.Len() == n {
+				return nil, fmt.Errorf("LineFacts scenario %d: line %d of source %d repeats an earlier line", s.ID, i+1, f+1)
+			}
 			if d.Len() > n { // new content: reference facts
 				fc := ref.Eval(l)
+				if s.LineFacts {
+					fc = ref.EvalAt(l, s.Sources[f].Name, i+1)
+				}
 				for _, v := range fc.Ignore {
 					if len(v) > 4000 {
 						return nil, fmt.Errorf("ignore value too long for the trace (%d bytes)", len(v))
@@ -177,10 +188,18 @@ func Run(s *Scenario, log *EventLog) (*Outcome, error) {
 		batcher = batchers.OpenFilesToChan(names, s.Gunzip, s.Readers, s.Batch, s.Buffer)
 	case "reader":
 		sr = NewScriptedReader(&s.Sources[0])
-		batcher = batchers.OpenReaderToChan(s.Sources[0].Name, sr, s.Batch, s.Buffer)
+		var rc io.ReadCloser = sr
+		if s.Sources[0].Reader != nil {
+			rc = s.Sources[0].Reader
+		}
+		batcher = batchers.OpenReaderToChan(s.Sources[0].Name, rc, s.Batch, s.Buffer)
 	case "hook":
 		sr = NewScriptedReader(&s.Sources[0])
-		batcher = batchers.VerifOpenReaderToChan(s.Sources[0].Name, sr, s.Batch, s.Buffer,
+		var rc io.ReadCloser = sr
+		if s.Sources[0].Reader != nil {
+			rc = s.Sources[0].Reader
+		}
+		batcher = batchers.VerifOpenReaderToChan(s.Sources[0].Name, rc, s.Batch, s.Buffer,
 			time.Duration(s.FlushMs)*time.Millisecond)
 	default:
 		return nil, fmt.Errorf("unknown mode %q", s.Mode)
